@@ -233,6 +233,13 @@ theorem concat_attrP : ∀ (attrs : List Text), concat (attrP attrs) = attrText 
     simp only [attrP, attrText, concat_cons, text_tok, ih]
     simp
 
+theorem concat_binCoreP (l ro ri : List FP) (op : Text) (ogl rgl i : Nat) :
+    concat (binCoreP l ro ri op ogl rgl i) = binCore (concat l) (concat ro) (concat ri) op ogl rgl i := by
+  unfold binCoreP binCore
+  split
+  · split <;> simp [List.append_assoc]
+  · split <;> simp [List.append_assoc]
+
 /-! ### the piece-level renderer concatenates to the string-level renderer -/
 
 mutual
@@ -327,6 +334,10 @@ theorem concat_rebuildAP : (e : Expr) → ∀ (na : Bool) (i : Nat) (b : Bool),
     congr 1
     simp only [concat_append, concat_cons, concat_nil, text_tok, text_ws, apply_ite concat, ihe, List.append_assoc,
       List.nil_append, List.cons_append, List.append_nil]
+  | .bin op left right ogl rgl before after, na, i, b => by
+    have ihl := concat_rebuildAP left
+    have ihr := concat_rebuildAP right
+    simp only [Expr.rebuildAP, Expr.rebuildA, concat_addTriviaP, concat_binCoreP, concat_cons, text_ws, ihl, ihr]
 theorem concat_rebuildAllP : (es : List Expr) → ∀ (i : Nat) (b : Bool),
     (rebuildAllP es i b).map concat = rebuildAll es i b
   | [], i, b => rfl
@@ -344,6 +355,7 @@ theorem concat_previewP : (e : Expr) → ∀ (i : Nat), (e.previewP i).map conca
   | .selOr .., i => rfl
   | .lam .., i => rfl
   | .un .., i => rfl
+  | .bin .., i => rfl
   | .list value ml inner before after, i => by
     have ihs := fun i b => concat_rebuildAllP value i b
     simp only [Expr.previewP, Expr.preview]
